@@ -424,14 +424,18 @@ Record sstate := mkS { s_w : Z; s_h : Z; s_P : Z; s_comps : list (Z * Z);
                        s_tabs : list (option htable) }.
 Definition s_init : sstate := mkS 0 0 0 [] [None; None; None; None].
 
-Fixpoint sv1_sof_comps (k : nat) (i : Z) (data : list Z) : outcome (list (Z * Z)) :=
+(* n = numComponents.  The sampling factor check applies only when n > 1: for a single
+   component the factors do not change the image (T.81 A.1.1 / A.2.2).  History (finding
+   F54): the check was unconditional, so a conformant greyscale frame whose SOF3 declares
+   H1 = V1 = 2 was rejected with ErrUnsupportedFormat. *)
+Fixpoint sv1_sof_comps (n : Z) (k : nat) (i : Z) (data : list Z) : outcome (list (Z * Z)) :=
   match k with
   | O => Ok []
   | S k' =>
     let off := 6 + i * 3 in
     let hv := znth data (off + 1) 0 in
-    if negb (Z.shiftr hv 4 =? 1) || negb (Z.land hv 15 =? 1) then Err
-    else obind (sv1_sof_comps k' (i + 1) data) (fun cs => Ok ((znth data off 0, 0) :: cs))
+    if (1 <? n) && (negb (Z.shiftr hv 4 =? 1) || negb (Z.land hv 15 =? 1)) then Err
+    else obind (sv1_sof_comps n k' (i + 1) data) (fun cs => Ok ((znth data off 0, 0) :: cs))
   end.
 Definition sv1_parse_sof3 (data : list Z) (st : sstate) : outcome sstate :=
   if zlen data <? 6 then Err
@@ -446,7 +450,7 @@ Definition sv1_parse_sof3 (data : list Z) (st : sstate) : outcome sstate :=
       if (w <=? 0) || (h <=? 0) then Err
       else if negb ((n =? 1) || (n =? 3)) then Err
       else if zlen data <? 6 + n * 3 then Err
-      else obind (sv1_sof_comps (Z.to_nat n) 0 data) (fun cs => Ok (mkS w h P cs (s_tabs st))).
+      else obind (sv1_sof_comps n (Z.to_nat n) 0 data) (fun cs => Ok (mkS w h P cs (s_tabs st))).
 
 Fixpoint sv1_parse_dht (fuel : nat) (data : list Z) (st : sstate) : outcome sstate :=
   match data with
